@@ -21,6 +21,15 @@ CLAIMS = {
             "Exhaustive over trees <= 4 nodes x 8 naming schemes x paths <= 2 (3) components; found and repaired the relax AttributeError defect.", "6/C07"),
     "C08": ("property predicates RelaxedOK/StrictOK/DeadEnd + character-level Match; as-built recursion AGlob proved to satisfy them by TLC (Thm_Glob); vectors replayed in three cache states; observations judged by TLC",
             "Exhaustive over trees <= 3-4 nodes x naming schemes x patterns <= 2 (3) components incl. wildcards and '**'; found and repaired the literal-component ChildResolverError defect.", "6/C08"),
+    "C09": ("RowsDef (segments from 'has a following sibling') vs the transcribed recursion proved equal by TLC (Thm_Rows) + decoding lemma; vectors rendered with 7 styles, lazy/eager childiter, str/by_attr variants, reprs; judged by TLC on de-rendered tokens",
+            "Exhaustive over all trees <= 6 (8) nodes, start nodes, childiter kinds, maxlevels, 4 line-count assignments.", "6/C09"),
+    "C10": ("ExportDef/ImportDef with round-trip theorems (Thm_Dict) checked by TLC; vectors replayed for three node families, dict/OrderedDict, argument immutability, three nodecls",
+            "Exhaustive over trees <= 4 (5) nodes x attribute schemes x attriter/childiter/maxlevel.", "6/C10"),
+    "C11": ("delegation structure (JSON maxlevel overrides, dumps of the dictionary) in the spec with dumps/loads uninterpreted; text compared exactly with json.dumps of the emitted dictionary under 7 option sets; importer round trip",
+            "Exhaustive over the C10 space; the JSON codec itself is sampled by a value pool (residue stated in DESIGN.md).", "6/C11"),
+    "C12": ("GraphDef vs as-built two-pass generation proved equal up to the named deviation stop_edge (Thm_Graph), Esc proved invertible; structural and text-format replays; judged by TLC relative to the observed PreOrderIter",
+            "Exhaustive over trees <= 4 (5) nodes x all stop sets x all filter sets x maxlevel; found and repaired the maxlevel=0 defect; stop_edge is a listed known finding pinned by the existing tests.", "6/C12"),
+    "C13": ("as C12 for MermaidExporter (no deviation after the maxlevel=0 fix)", "Exhaustive over trees <= 4 (5) nodes x all stop sets x all filter sets x maxlevel.", "6/C13"),
     "C14": ("FindAll/Find definitions over C06's VisitPre; vectors through anytree.search and anytree.cachedsearch; judged relative to observed PreOrderIter", "Exhaustive over forests <= 4 (5) nodes, all count bounds, all attribute assignments.", "6/C14"),
     "C15": ("Walk definition + Lem_Walk (simple path, mirror) checked by TLC; all ordered pairs replayed", "Exhaustive over all forests <= 6 (8) nodes and all ordered node pairs.", "6/C15"),
     "C16": ("declarative IdealLog/Observes (NodeOpsProps) checked against the interpreter by TLC (Thm_C16); complete hook logs with in-hook snapshots compared on every transition", "Exhaustive within bounds; hook sequences of refused/aborted children assignments are deliberately unconstrained.", "6/C16"),
